@@ -347,6 +347,8 @@ pub struct Gen {
     arrival: Vec<u128>,
     supplied: u128,
     side: Side,
+    /// every order draws its own side (a level normally holds one side; nothing enforces it)
+    mixed_sides: bool,
 }
 
 const TIFS: [TimeInForce; 5] = [
@@ -365,6 +367,7 @@ impl Gen {
             *rng.pick(&[1u64, 2, 7, 100, 101, 9_999, 10_000])
         };
         let side = if rng.chance(1, 2) { Side::Buy } else { Side::Sell };
+        let mixed_sides = rng.chance(1, 4);
         Gen {
             cfg,
             rng,
@@ -375,6 +378,7 @@ impl Gen {
             arrival: Vec::new(),
             supplied: 0,
             side,
+            mixed_sides,
         }
     }
 
@@ -465,7 +469,16 @@ impl Gen {
         let ts = self.ts();
         let id = model::oid(idn);
         self.arrival.push(model::key(&id));
-        Some(model::mk(kind, id, self.price, v, h, self.side, ts, tif, &p))
+        let side = if self.mixed_sides {
+            if self.rng.chance(1, 2) {
+                Side::Buy
+            } else {
+                Side::Sell
+            }
+        } else {
+            self.side
+        };
+        Some(model::mk(kind, id, self.price, v, h, side, ts, tif, &p))
     }
 
     /// make the next fresh id at least `n` (continuations must not collide with earlier ids)
